@@ -9,9 +9,15 @@ Open Scope string_scope.
 (* ---------- path expressions over the name the caller typed ---------- *)
 Inductive pexp :=
 | PName                                  (* the name as typed: Path(file_name) *)
-| PAddExt (ext : string) (p : pexp)      (* add_extension_if_needed(p, ext) *)
+| PIfEnds (ext : string) (c a b : pexp)  (* a if str(c).endswith(ext) else b *)
 | PSuffix (s : string) (p : pexp)        (* Path(str(p) + s) *)
-| PSibling (s : string) (p : pexp).      (* p.parent / s *)
+| PSibling (s : string) (p : pexp)       (* p.parent / s *)
+| PWithSuffix (s : string) (p : pexp).   (* p.with_suffix(s) *)
+
+(* add_extension_if_needed(p, ext) as the code spells it today; the translator
+   produces PIfEnds from whatever the method body says *)
+Definition PAddExt (ext : string) (p : pexp) : pexp :=
+  PIfEnds ext p p (PSuffix ("." ++ ext) p).
 
 Fixpoint ends_with (s suf : string) : bool :=
   if String.eqb s suf then true
@@ -32,20 +38,65 @@ Fixpoint dir_prefix (s : string) : string :=
       end
   end.
 
+(* text after the last '/' *)
+Fixpoint has_slash (s : string) : bool :=
+  match s with
+  | EmptyString => false
+  | String c r => Ascii.eqb c "/"%char || has_slash r
+  end.
+
+Fixpoint base_name (s : string) : string :=
+  match s with
+  | EmptyString => EmptyString
+  | String c r =>
+      if has_slash r then base_name r
+      else if Ascii.eqb c "/"%char then r else s
+  end.
+
+(* pathlib's stem of a final component: cut at the last '.', unless that dot is
+   the first character or the last one (".bashrc", "a." have no suffix) *)
+Fixpoint has_dot (s : string) : bool :=
+  match s with
+  | EmptyString => false
+  | String c r => Ascii.eqb c "."%char || has_dot r
+  end.
+
+Fixpoint cut_last_dot (s : string) : string :=   (* s without its last ".xyz" *)
+  match s with
+  | EmptyString => EmptyString
+  | String c r =>
+      if Ascii.eqb c "."%char && negb (has_dot r) then EmptyString
+      else String c (cut_last_dot r)
+  end.
+
+Definition stem_of (nm : string) : string :=
+  match nm with
+  | EmptyString => nm
+  | String c r =>
+      if negb (has_dot r) then nm                    (* no dot after the first char *)
+      else if ends_with nm "." then nm               (* trailing dot: no suffix *)
+      else String c (cut_last_dot r)
+  end.
+
+Definition with_suffix (s suf : string) : string :=
+  dir_prefix s ++ stem_of (base_name s) ++ suf.
+
 Fixpoint peval (name : string) (p : pexp) : string :=
   match p with
   | PName => name
-  | PAddExt ext q =>
-      let s := peval name q in
-      if ends_with s ext then s else s ++ "." ++ ext
+  | PIfEnds ext c a b =>
+      if ends_with (peval name c) ext then peval name a else peval name b
   | PSuffix suf q => peval name q ++ suf
   | PSibling f q => dir_prefix (peval name q) ++ f
+  | PWithSuffix suf q => with_suffix (peval name q) suf
   end.
 
 Fixpoint pexp_eqb (a b : pexp) : bool :=
   match a, b with
   | PName, PName => true
-  | PAddExt e p, PAddExt e' p' => String.eqb e e' && pexp_eqb p p'
+  | PIfEnds e c a b, PIfEnds e' c' a' b' =>
+      String.eqb e e' && pexp_eqb c c' && pexp_eqb a a' && pexp_eqb b b'
+  | PWithSuffix e p, PWithSuffix e' p' => String.eqb e e' && pexp_eqb p p'
   | PSuffix e p, PSuffix e' p' => String.eqb e e' && pexp_eqb p p'
   | PSibling e p, PSibling e' p' => String.eqb e e' && pexp_eqb p p'
   | _, _ => false
@@ -65,7 +116,11 @@ Inductive prog :=
 | Loop (body : prog)   (* data-dependent number of iterations *)
 | Call (body : prog)   (* a method body: Return ends it *)
 | Return
-| Raise.
+| Raise
+| Delete (p : pexp)            (* p.unlink() / os.remove(p) *)
+| Rename (src dst : pexp)      (* os.replace(src, dst) / src.replace(dst) *)
+| Try (body handler : prog)    (* try: body  except: handler  (handler ends in Raise to re-raise) *)
+| Finally (body fin : prog).   (* try: body  finally: fin *)
 
 Inductive outcome := Normal | Returned | Raised.
 
@@ -75,17 +130,36 @@ Definition fsys := string -> option nat.
 (* trace: the file events in reverse order of occurrence,
    "G p" = existence test of a guard, "C p" = create/truncate, "A p" = append *)
 Record st := mkst { fs : fsys; orc : list nat; stamp : nat; touched : list string;
-                    trace : list string }.
+                    trace : list string;
+                    fuel : option nat   (* Some k: an exception unrelated to the guards strikes
+                                           when the (k+1)-th file event is about to happen *) }.
 
 Definition fwrite (tag : string) (s : st) (q : string) : st :=
   mkst (fun x => if String.eqb x q then Some (stamp s) else fs s x)
-       (orc s) (S (stamp s)) (q :: touched s) ((tag ++ q) :: trace s).
+       (orc s) (S (stamp s)) (q :: touched s) ((tag ++ q) :: trace s) (fuel s).
+
+Definition fdelete (s : st) (q : string) : st :=
+  mkst (fun x => if String.eqb x q then None else fs s x)
+       (orc s) (stamp s) (q :: touched s) (("D " ++ q) :: trace s) (fuel s).
+
+Definition frename (s : st) (a b : string) : st :=
+  mkst (fun x => if String.eqb x b then fs s a
+                 else if String.eqb x a then None else fs s x)
+       (orc s) (stamp s) (b :: a :: touched s) (("M " ++ a ++ " -> " ++ b) :: trace s) (fuel s).
 
 Definition with_orc (s : st) (r : list nat) : st :=
-  mkst (fs s) r (stamp s) (touched s) (trace s).
+  mkst (fs s) r (stamp s) (touched s) (trace s) (fuel s).
 
 Definition logg (s : st) (q : string) : st :=
-  mkst (fs s) (orc s) (stamp s) (touched s) (("G " ++ q) :: trace s).
+  mkst (fs s) (orc s) (stamp s) (touched s) (("G " ++ q) :: trace s) (fuel s).
+
+(* one file event is about to happen: None = the exception strikes now *)
+Definition tick (s : st) : option st :=
+  match fuel s with
+  | None => Some s
+  | Some O => None
+  | Some (S k) => Some (mkst (fs s) (orc s) (stamp s) (touched s) (trace s) (Some k))
+  end.
 
 Fixpoint iterate (n : nat) (f : st -> outcome * st) (s : st) : outcome * st :=
   match n with
@@ -100,12 +174,15 @@ Fixpoint run (name : string) (p : prog) (s : st) : outcome * st :=
   | Skip => (Normal, s)
   | Seq a b => let '(o, s') := run name a s in
                match o with Normal => run name b s' | _ => (o, s') end
-  | Guard e => match fs s (peval name e) with
+  | Guard e => match tick s with None => (Raised, s) | Some s =>
+               match fs s (peval name e) with
                | Some _ => (Raised, logg s (peval name e))
                | None => (Normal, logg s (peval name e))
-               end
-  | Create e => (Normal, fwrite "C " s (peval name e))
-  | Append e => (Normal, fwrite "A " s (peval name e))
+               end end
+  | Create e => match tick s with None => (Raised, s) | Some s =>
+                (Normal, fwrite "C " s (peval name e)) end
+  | Append e => match tick s with None => (Raised, s) | Some s =>
+                (Normal, fwrite "A " s (peval name e)) end
   | If a b => match orc s with
               | [] => run name b s
               | c :: r => let s1 := with_orc s r in
@@ -119,6 +196,17 @@ Fixpoint run (name : string) (p : prog) (s : st) : outcome * st :=
                  (match o with Returned => Normal | _ => o end, s')
   | Return => (Returned, s)
   | Raise => (Raised, s)
+  | Delete e => match tick s with None => (Raised, s) | Some s =>
+                (Normal, fdelete s (peval name e)) end
+  | Rename a b => match tick s with None => (Raised, s) | Some s =>
+                  (Normal, frename s (peval name a) (peval name b)) end
+  | Try body handler =>
+      let '(o, s') := run name body s in
+      match o with Raised => run name handler s' | _ => (o, s') end
+  | Finally body fin =>
+      let '(o, s') := run name body s in
+      let '(o2, s2) := run name fin s' in
+      (match o2 with Normal => o | _ => o2 end, s2)
   end.
 
 (* ---------- the static check ---------- *)
@@ -167,6 +255,22 @@ Fixpoint check (g : list pexp) (p : prog) : option (oset * oset) :=
       end
   | Return => Some (None, Some g)
   | Raise => Some (None, None)
+  (* removing / moving a file is harmless only if the file is one of this
+     call's own (its path was guarded, so it did not exist before) *)
+  | Delete e => if pmem e g then Some (Some g, None) else None
+  | Rename a b => if pmem a g && pmem b g then Some (Some g, None) else None
+  (* an exception can leave the body anywhere, so the handler / the finally
+     block may rely only on what was guarded before the body was entered *)
+  | Try body handler =>
+      match check g body, check g handler with
+      | Some (nb, rb), Some (nh, rh) => Some (meet nb nh, meet rb rh)
+      | _, _ => None
+      end
+  | Finally body fin =>
+      match check g body, check g fin with
+      | Some (nb, rb), Some (_, rf) => Some (nb, meet rb rf)
+      | _, _ => None
+      end
   end.
 
 Definition prog_ok (p : prog) : bool :=
@@ -179,7 +283,9 @@ Definition cfg_ok (cfg : list (string * prog)) : bool :=
 Definition unchanged (f0 f1 : fsys) : Prop :=
   forall q c, f0 q = Some c -> f1 q = Some c.
 
-Definition init_st (f0 : fsys) (o : list nat) : st := mkst f0 o 1000 [] [].
+Definition init_stf (f0 : fsys) (o : list nat) (fu : option nat) : st :=
+  mkst f0 o 1000 [] [] fu.
+Definition init_st (f0 : fsys) (o : list nat) : st := init_stf f0 o None.
 
 (* ---------- executable helpers for correspondence and witness search ---- *)
 Definition fs_of_list (l : list string) : fsys :=
@@ -187,8 +293,9 @@ Definition fs_of_list (l : list string) : fsys :=
 
 Fixpoint pexps (p : prog) : list pexp :=
   match p with
-  | Guard e | Create e | Append e => [e]
-  | Seq a b | If a b => pexps a ++ pexps b
+  | Guard e | Create e | Append e | Delete e => [e]
+  | Rename a b => [a; b]
+  | Seq a b | If a b | Try a b | Finally a b => pexps a ++ pexps b
   | Loop b | Call b => pexps b
   | _ => []
   end.
@@ -212,8 +319,9 @@ Definition observe (name : string) (p : prog) (pre : list string) (o : list nat)
   let '(oc, s1) := run name p (init_st (fs_of_list pre) o) in
   let t := dedup (touched s1) in
   (outcome_code oc,
-   filter (fun q => existsb (String.eqb q) pre) t,
-   filter (fun q => negb (existsb (String.eqb q) pre)) t).
+   filter (fun q => match fs s1 q with Some 0 => false | _ => true end) pre,
+   filter (fun q => negb (existsb (String.eqb q) pre)
+                    && match fs s1 q with Some _ => true | None => false end) t).
 
 (* correspondence: does the run chosen by oracle o reproduce the outcome and
    the exact sequence of file events the implementation produced? *)
@@ -225,8 +333,8 @@ Fixpoint list_eqb (a b : list string) : bool :=
   end.
 
 Definition reproduces (name : string) (p : prog) (pre : list string) (o : list nat)
-           (raised : nat) (events : list string) : bool :=
-  let '(oc, s1) := run name p (init_st (fs_of_list pre) o) in
+           (fu : option nat) (raised : nat) (events : list string) : bool :=
+  let '(oc, s1) := run name p (init_stf (fs_of_list pre) o fu) in
   Nat.eqb (outcome_code oc) raised && list_eqb (rev (trace s1)) events
   && match orc s1 with [] => true | _ => false end.
 
